@@ -141,6 +141,13 @@ func (h *Handler) Handle(req, resp dhcpv6.DHCPv6) (dhcpv6.DHCPv6, bool) {
 			// which is equivalent to no hint
 			hints = []*dhcpv6.OptIAPrefix{{Prefix: &net.IPNet{}}}
 		}
+		for _, hint := range hints {
+			if hint.Prefix == nil {
+				// An IAPrefix option with prefix-length 0 is parsed with a nil
+				// Prefix: it is a hint that specifies nothing
+				hint.Prefix = &net.IPNet{}
+			}
+		}
 
 		// Bitmap to track which requests are already satisfied or not
 		satisfied := bitset.New(uint(len(hints)))
